@@ -230,8 +230,9 @@ CLAIMS = {
              "per step, stale garbage in `out` and in every declared buffer) with the theorem that for EVERY schedule no thread gets stuck, "
              "each thread's results are those of its calls made alone (execZ = the eval-mode function by C01/C02), and every schedule that "
              "gives a thread its turns finishes it - provided the declared buffers are private per thread, which is what the translator reads "
-             "from BUFFER_STORAGE and from every declaration site (`static __thread`); plain `static` buffers are refuted by a concrete "
-             "schedule. File identities: the same refinement theorem holds for EVERY inode allocation policy a file system may follow "
+             "from BUFFER_STORAGE and from every declaration site (`static __thread`); composed with the generator theorems: for the generated "
+             "programs of ANY well-formed dense / conv-pool-flatten-dense models every result is the eval-mode circuit in every bit lane, under "
+             "every schedule; plain `static` buffers are refuted by a concrete schedule. File identities: the same refinement theorem holds for EVERY inode allocation policy a file system may follow "
              "(Model/ProcAlloc.v: numbers of replaced files are re-used), and a loader caching by (device, inode) is refuted. "
              "Partial: the loader/mmap semantics are modelled; that the C implementation gives thread-local and malloc'd objects "
              "these semantics is trusted. Tied by executing histories (fixed dangerous "
